@@ -104,7 +104,12 @@ def oracle(env, ev):
     if ev[0] == 'tick':
         log = getattr(env, 'tick_log', [])
         reaped = getattr(env, 'tick_reaped', [])
-        abnormal = [s for s in reaped if s not in (0, bp.EX_RECYCLE)]
+        ctl0 = getattr(env, 'tick_reaped_ctl', [])
+        if len(ctl0) != len(reaped):
+            ctl0 = [False] * len(reaped)
+        # (a worker shrink() told to exit is not an abnormal exit)
+        abnormal = [s for s, c in zip(reaped, ctl0)
+                    if s not in (0, bp.EX_RECYCLE) and not c]
         steps = [e for e in log if e[0] == 'step']
         raised = [e for e in log if e == ('step', False)]
         # refusal happens instead of the fork
@@ -123,6 +128,19 @@ def oracle(env, ev):
         if not abnormal and steps and missing == len(reaped):
             return ('clean/recycle exits %r consumed restart budget' %
                     (reaped,))
+        ctl = getattr(env, 'tick_reaped_ctl', [])
+        own = [s_ for s_, c_ in zip(reaped, ctl)
+               if s_ not in (0, bp.EX_RECYCLE) and not c_]
+        if len(ctl) == len(reaped) and not own and steps and \
+                not env.grown and missing <= len(reaped):
+            # the only non-clean exits of this round are workers shrink()
+            # told to exit (not replaced); what is replaced exited with the
+            # clean / recycle status
+            return ('restart budget consumed although every worker replaced '
+                    'in this round had exited with the clean or recycle '
+                    'status (reaped %r, told to exit by shrink: %r)' % (
+                        reaped, ctl),
+                    'F45:shrunk-worker-exit-charged-to-a-recycled-replacement')
         for e in steps:
             exp = ref.restart(env.world.now)
             if exp != e[1]:
@@ -142,6 +160,13 @@ def configs(tier):
     ap = dict(kind='apply', fn='ok')
     A = dict(die=(1, -9, 0, bp.EX_RECYCLE), die_idle=True, put_faults=(),
              max_adv=3, restart_window=True, discard=True)
+    out.append(dict(name='shrink+recycle', procs=2, jobs=[ap, ap],
+                    pool=dict(max_restarts=1, max_restart_freq=10,
+                              maxtasksperchild=1, lost_worker_timeout=3.0),
+                    alphabet=dict(die=(), put_faults=(), max_adv=1,
+                                  shrink=True, restart_window=True),
+                    depth=d + 1, max_states=ms, final='harness.c01:final',
+                    oracle='harness.c11:oracle'))
     for name, procs, pk in (
             ('R1/T1', 2, dict(max_restarts=1, max_restart_freq=1)),
             ('R2/T10', 2, dict(max_restarts=2, max_restart_freq=10)),
